@@ -578,17 +578,19 @@ Definition round (fx : fixes) (inst : Z) (lower : bool) (l : list schema) (g : o
       end
   end.
 
-(* gateway A applies every version in turn; for more than one version, replica B then starts on the last one *)
-Fixpoint rounds_a (fx : fixes) (lower : bool) (vs : list (list schema)) (g : option gateway) (ls : limstate)
-  : list round_res * limstate :=
+(* Script.  Before each round the limiter's handler has seen that round's version.  Gateway A plays a round on every
+   version in turn; when there is more than one version, replica B (which never saw an earlier one) plays its first
+   round on the last version BEFORE A does - so A's stored condition is still the one of the previous version. *)
+Fixpoint rounds_tail (fx : fixes) (lower : bool) (vs : list (list schema)) (g : option gateway) (ls : limstate)
+  : list round_res :=
   match vs with
-  | [] => ([], ls)
-  | l :: r => let '(rr, g', ls') := round fx 1 lower l g ls in
-              let '(rest, ls'') := rounds_a fx lower r g' ls' in (rr :: rest, ls'')
+  | [] => []
+  | [l] => let '(rb, _, ls1) := round fx 2 lower l (Some fresh_gateway) ls in
+           let '(ra, _, _) := round fx 1 lower l g ls1 in [rb; ra]
+  | l :: r => let '(rr, g', ls') := round fx 1 lower l g ls in rr :: rounds_tail fx lower r g' ls'
   end.
 Definition remote_rounds (fx : fixes) (lower : bool) (vs : list (list schema)) : list round_res :=
-  let '(ra, ls) := rounds_a fx lower vs (Some fresh_gateway) [] in
   match vs with
-  | _ :: _ :: _ => let '(rb, _, _) := round fx 2 lower (last vs []) (Some fresh_gateway) ls in ra ++ [rb]
-  | _ => ra
+  | [] => []
+  | l :: r => let '(rr, g', ls') := round fx 1 lower l (Some fresh_gateway) [] in rr :: rounds_tail fx lower r g' ls'
   end.
